@@ -1,1 +1,299 @@
-"""placeholder"""
+"""Flow rules on the T-domain: R-FLOW-CANON, R-FLOW-SERIAL, R-HASH, R-FLOW-PARSE."""
+from __future__ import annotations
+
+import ast
+
+from ..model import AnalysisError, norm, short
+from ..report import Finding, RuleResult
+from ..taint import HASH, LABEL, ORDER, UNSUM, TaintInterp, kinds, only, tt, vt
+from . import rule
+from .common import all_public_closure, assigned_names, closure, entry, own_walk, params_of, sites
+
+BAD_CANON = (LABEL, ORDER, HASH)
+BAD_SERIAL = (ORDER, HASH)
+
+
+def _run_canon(ctx):
+    if "taint_canon" not in ctx.cache:
+        from .bliss import installed_igraph_version
+        from .spec import IGRAPH_CONVENTION
+        I = TaintInterp(ctx.repo, label_ctx=True, bliss_convention=IGRAPH_CONVENTION.get(installed_igraph_version(ctx)[0]))
+        g = I.graph(attrs={})
+        r = I.call_fn(entry(ctx, "canonicalize"), [g])
+        ctx.cache["taint_canon"] = (I, r)
+    return ctx.cache["taint_canon"]
+
+
+def _run_serial(ctx):
+    if "taint_serial" not in ctx.cache:
+        I = TaintInterp(ctx.repo, label_ctx=False)
+        g = I.graph(attrs={})
+        r = I.call_fn(entry(ctx, "serialize"), [g])
+        ctx.cache["taint_serial"] = (I, r)
+    return ctx.cache["taint_serial"]
+
+
+def _origins(t, ks):
+    return sorted({o for k, o in t if k in ks})
+
+
+def _check_unsum(I, res_name):
+    for s in I.sinks:
+        u = _origins(s.taint, (UNSUM,))
+        if u:
+            raise AnalysisError(f"{res_name}: the result of an unsummarised call reaches the sink `{s.what}`: {u[0]}")
+
+
+KIND_TEXT = {LABEL: "the arbitrary numbering of the atoms", ORDER: "listing / insertion order", HASH: "set iteration order (hash seed)"}
+
+
+def _report(res: RuleResult, rule_id: str, s, bad):
+    fi, node = s.fi, s.node
+    ks = sorted(kinds(s.taint) & set(bad))
+    for k in ks:
+        origins = _origins(s.taint, (k,))
+        res.fail(Finding(rule_id, fi.module.rel, fi.qualname, f"{s.what}: {short(node, 80)}",
+                         f"{s.what} depends on {KIND_TEXT[k]}" + (f" ({s.detail})" if s.detail else ""),
+                         line=getattr(node, "lineno", None), path=origins[:4] + [s.what],
+                         extra={"kind": k, "origins": origins[:8]}))
+
+
+@rule("R-FLOW-CANON")
+def r_flow_canon(ctx) -> RuleResult:
+    res = RuleResult("R-FLOW-CANON", "in canonicalize_molecule the partition classes, the colour vector handed to bliss (and its alignment with the vertex order) and the new labels carry no label / listing-order / hash taint")
+    I, r = _run_canon(ctx)
+    _check_unsum(I, "R-FLOW-CANON")
+    seen = {"partition": 0, "bliss": 0, "relabel": 0}
+    for s in I.sinks:
+        if "partition" in s.what:
+            seen["partition"] += 1
+        elif "bliss" in s.what:
+            seen["bliss"] += 1
+        elif "relabel" in s.what:
+            seen["relabel"] += 1
+        else:
+            continue
+        bad = kinds(s.taint) & set(BAD_CANON)
+        if "bliss" in s.what and "not aligned" in s.detail:
+            bad = bad or {ORDER}
+        res.inst(s.fi.fq, f"{s.what}: {short(s.node, 70)}", "fail" if bad else "ok", detail=s.detail)
+        if bad:
+            _report(res, "R-FLOW-CANON", s, BAD_CANON)
+    for k, floor in (("partition", 1), ("bliss", 1), ("relabel", 1)):
+        if seen[k] < floor:
+            raise AnalysisError(f"R-FLOW-CANON: no `{k}` sink reached in canonicalize_molecule (anchor vanished)")
+    res.counts = {"sources": len(I.source_sites), "sinks": len(I.sinks)}
+    res.notes = [f"source: {k}" for k in sorted(I.source_sites)][:12]
+    return res
+
+
+@rule("R-FLOW-SERIAL")
+def r_flow_serial(ctx) -> RuleResult:
+    res = RuleResult("R-FLOW-SERIAL", "the string returned by serialize_molecule carries no listing-order / hash taint (labels canonical by precondition)")
+    I, r = _run_serial(ctx)
+    t = tt(r)
+    u = _origins(t, (UNSUM,))
+    if u:
+        raise AnalysisError(f"R-FLOW-SERIAL: the result of an unsummarised call reaches the returned string: {u[0]}")
+    fi = entry(ctx, "serialize")
+    bad = kinds(t) & set(BAD_SERIAL)
+    res.inst(fi.fq, "returned string", "fail" if bad else "ok", detail=f"{len(I.source_sites)} order/hash sources neutralised" if not bad else "")
+    if bad:
+        # attribute the taint to the writer call(s) that introduce it: re-evaluate per sink
+        for k in sorted(bad):
+            origins = _origins(t, (k,))
+            for o in origins[:6]:
+                res.fail(Finding("R-FLOW-SERIAL", fi.module.rel, fi.qualname, f"returned string <- {o}",
+                                 f"the TUCAN string depends on {KIND_TEXT[k]}: {o} reaches the result without a sorted()/order-insensitive consumer in between",
+                                 line=fi.node.lineno, path=[o, "serialize_molecule result"], extra={"kind": k}))
+    # the final relabel maps inside the serializer must be clean too (they decide the numbering)
+    for s in I.sinks:
+        if "relabel" in s.what:
+            b = kinds(s.taint) & set(BAD_SERIAL)
+            res.inst(s.fi.fq, f"{s.what}: {short(s.node, 70)}", "fail" if b else "ok")
+            if b:
+                _report(res, "R-FLOW-SERIAL", s, BAD_SERIAL)
+    if len(I.source_sites) < 5:
+        raise AnalysisError(f"R-FLOW-SERIAL: only {len(I.source_sites)} order sources seen in the serializer; its iteration idioms changed")
+    res.counts = {"sources": len(I.source_sites), "relabel_sinks": sum(1 for s in I.sinks if 'relabel' in s.what)}
+    res.notes = [f"source: {k}" for k in sorted(I.source_sites)][:16]
+    return res
+
+
+# --------------------------------------------------------------------------- R-HASH
+
+
+def _set_exprs(fn):
+    for n in own_walk(fn):
+        if isinstance(n, (ast.Set, ast.SetComp)):
+            yield n
+        elif isinstance(n, ast.Call) and isinstance(n.func, ast.Name) and n.func.id in ("set", "frozenset"):
+            yield n
+
+
+@rule("R-HASH")
+def r_hash(ctx) -> RuleResult:
+    res = RuleResult("R-HASH", "no value whose order depends on set iteration (hash seed) reaches a public result")
+    # pipelines: by interpretation
+    Ic, rc = _run_canon(ctx)
+    Is, rs = _run_serial(ctx)
+    for name, I, r, fi in (("canonicalize_molecule", Ic, rc, entry(ctx, "canonicalize")), ("serialize_molecule", Is, rs, entry(ctx, "serialize"))):
+        t = set(tt(r))
+        for s in I.sinks:
+            t |= set(s.taint)
+        h = _origins(t, (HASH,))
+        res.inst(fi.fq, f"{name}: result and sinks free of hash-order taint", "fail" if h else "ok",
+                 detail=f"{sum(1 for k in I.source_sites if k.startswith('HASH'))} set constructions, all consumed order-insensitively or sorted")
+        for o in h[:4]:
+            res.fail(Finding("R-HASH", fi.module.rel, fi.qualname, f"result <- {o}", f"{name}: set iteration order reaches the result ({o})", line=fi.node.lineno, path=[o, f"{name} result"]))
+    # other public closures: any set construction must be consumed by sorted / membership / len only
+    pipeline = {f.fq for f in closure(ctx, "canonicalize", "serialize")}
+    n_sets = 0
+    for fi in all_public_closure(ctx):
+        if fi.fq in pipeline:
+            continue
+        parents = {}
+        for n in ast.walk(fi.node):
+            for c in ast.iter_child_nodes(n):
+                parents[id(c)] = n
+        names = assigned_names(fi.node)
+        for se in _set_exprs(fi.node):
+            n_sets += 1
+            p = parents.get(id(se))
+            ok = False
+            why = ""
+            if isinstance(p, ast.Call) and isinstance(p.func, ast.Name) and p.func.id in ("sorted", "len", "min", "max", "sum", "any", "all", "frozenset", "set"):
+                ok = True
+            elif isinstance(p, ast.Compare):
+                ok = True
+            elif isinstance(p, (ast.Assign, ast.AnnAssign, ast.NamedExpr)):
+                tg = p.targets[0] if isinstance(p, ast.Assign) else p.target
+                if isinstance(tg, ast.Name):
+                    uses = [u for u in own_walk(fi.node) if isinstance(u, ast.Name) and u.id == tg.id and isinstance(u.ctx, ast.Load)]
+                    ok = True
+                    for u in uses:
+                        up = parents.get(id(u))
+                        good = (isinstance(up, ast.Compare)) or (isinstance(up, ast.Call) and isinstance(up.func, ast.Name) and up.func.id in ("sorted", "len", "min", "max", "sum", "any", "all")) \
+                            or (isinstance(up, ast.Attribute) and up.attr in ("add", "discard", "remove", "update", "issubset", "issuperset", "isdisjoint", "__contains__", "union", "intersection", "difference")) \
+                            or isinstance(up, (ast.BinOp, ast.BoolOp, ast.UnaryOp, ast.If, ast.While, ast.IfExp))
+                        if not good:
+                            ok = False
+                            why = f"`{short(up)}` consumes the set in iteration order"
+            else:
+                why = f"`{short(p)}` consumes the set in iteration order"
+            res.inst(fi.fq, short(se), "ok" if ok else "fail")
+            if not ok:
+                res.fail(Finding("R-HASH", fi.module.rel, fi.qualname, norm(se), f"set iteration order may reach a result: {why}", line=se.lineno))
+    # fixture: the interpreter must see a planted list(set(..)) flow
+    from ..model import Repo
+    fx_src = "def _fx(xs):\n    u = list(set(xs))\n    return ''.join(str(x) for x in u)\n"
+    fx = Repo(ctx.repo.root, {**ctx.repo.overlay, "tucan/_tsa_fixture_hash.py": fx_src})
+    I = TaintInterp(fx, label_ctx=False)
+    from ..taint import seq, sc
+    r = I.call_fn(fx.func("tucan._tsa_fixture_hash._fx"), [seq(sc(), frozenset(), "xs")])
+    if HASH not in kinds(tt(r)):
+        raise AnalysisError("R-HASH self-test: planted list(set(..)) flow not detected")
+    res.counts = {"set_constructions_outside_pipeline": n_sets, "fixture_detected": 1}
+    return res
+
+
+# --------------------------------------------------------------------------- R-FLOW-PARSE
+
+
+@rule("R-FLOW-PARSE")
+def r_flow_parse(ctx) -> RuleResult:
+    res = RuleResult("R-FLOW-PARSE", "the spelling of a TUCAN string (tuple order, orientation, repetition, attribute-block order/splitting) reaches the parsed graph only through set-like consumers: bonds as keys of an undirected simple graph, attributes by keyed per-atom merge")
+    repo = ctx.repo
+    par = repo.module("tucan.parser.parser")
+    lis = None
+    for ci in par.classes.values():
+        if any(b.endswith("tucanListener") for b in repo.base_names(ci)):
+            lis = ci
+    if lis is None:
+        raise AnalysisError("listener implementation vanished")
+    init = lis.methods.get("__init__")
+    if init is None:
+        raise AnalysisError("listener has no __init__")
+    # which self attributes collect bonds / attributes: by the handler that fills them
+    fields = {}
+    for n in own_walk(init.node):
+        if isinstance(n, ast.Assign) and isinstance(n.targets[0], ast.Attribute) and isinstance(n.targets[0].value, ast.Name) and n.targets[0].value.id == "self":
+            fields[n.targets[0].attr] = n.value
+    uses: dict[str, list] = {k: [] for k in fields}
+    parents = {}
+    for m in lis.methods.values():
+        for n in ast.walk(m.node):
+            for c in ast.iter_child_nodes(n):
+                parents[id(c)] = (n, m)
+    for m in lis.methods.values():
+        if m.name == "__init__":
+            continue
+        for n in own_walk(m.node):
+            if isinstance(n, ast.Attribute) and isinstance(n.value, ast.Name) and n.value.id == "self" and n.attr in fields:
+                uses[n.attr].append((n, m))
+    bond_field = next((k for k in fields if "bond" in k), None)
+    attr_field = next((k for k in fields if "attr" in k), None)
+    if bond_field is None or attr_field is None:
+        raise AnalysisError("R-FLOW-PARSE: listener no longer keeps bonds / node attributes in fields named so")
+    # ---- bonds: appended as pairs; read only by (a) plain iteration that validates, (b) comprehension producing dict keys / a set
+    for n, m in uses[bond_field]:
+        p, _ = parents[id(n)]
+        ok, why = False, ""
+        if isinstance(p, ast.Attribute) and p.attr in ("append", "add"):
+            ok, why = True, "collected"
+        elif isinstance(p, ast.For) and p.iter is n:
+            # body must not build anything positional: only validation calls
+            body_ok = all(isinstance(s, ast.Expr) and isinstance(s.value, ast.Call) for s in p.body)
+            ok, why = body_ok, "iterated for validation only" if body_ok else "iterated by a loop that builds something from the listing order"
+        elif isinstance(p, ast.comprehension):
+            comp = parents[id(p)][0]
+            if isinstance(comp, (ast.DictComp, ast.SetComp)):
+                ok, why = True, "becomes dictionary keys / a set"
+            else:
+                ok, why = False, "flows into an ordered sequence"
+        elif isinstance(p, ast.Call) and isinstance(p.func, ast.Name) and p.func.id in ("set", "frozenset", "len", "sorted"):
+            ok, why = True, f"{p.func.id}()"
+        else:
+            why = f"used as `{short(p)}`"
+        res.inst(m.fq, f"self.{bond_field} in `{short(p, 60)}`", "ok" if ok else "fail", detail=why)
+        if not ok:
+            res.fail(Finding("R-FLOW-PARSE", m.module.rel, m.qualname, norm(p), f"the order or multiplicity in which bonds were written reaches the graph: {why}", line=n.lineno))
+    # ---- attributes: setdefault(index) + keyed store with duplicate check; read via .items() loop doing keyed update
+    for n, m in uses[attr_field]:
+        p, _ = parents[id(n)]
+        ok, why = False, ""
+        if isinstance(p, ast.Attribute) and p.attr in ("setdefault", "get"):
+            ok, why = True, "keyed by atom index"
+        elif isinstance(p, ast.Attribute) and p.attr == "items":
+            call = parents[id(p)][0]
+            loop = parents[id(call)][0]
+            if isinstance(loop, ast.For):
+                keyed = all(not (isinstance(s, ast.Expr) and isinstance(s.value, ast.Call) and isinstance(s.value.func, ast.Attribute) and s.value.func.attr in ("append", "extend", "insert")) for s in ast.walk(loop))
+                ok, why = keyed, "merged per atom by keyed update" if keyed else "collected into an ordered sequence"
+            else:
+                why = "items() not consumed by a merge loop"
+        elif isinstance(p, ast.Subscript):
+            ok, why = True, "keyed by atom index"
+        else:
+            why = f"used as `{short(p)}`"
+        res.inst(m.fq, f"self.{attr_field} in `{short(p, 60)}`", "ok" if ok else "fail", detail=why)
+        if not ok:
+            res.fail(Finding("R-FLOW-PARSE", m.module.rel, m.qualname, norm(p), f"the order / splitting of attribute blocks reaches the graph: {why}", line=n.lineno))
+    # duplicate attribute detection raises
+    adders = [m for m in lis.methods.values() if any(isinstance(x, ast.Attribute) and x.attr == "setdefault" for x in ast.walk(m.node))]
+    okdup = any(isinstance(y, ast.If) and isinstance(y.test, ast.Compare) and isinstance(y.test.ops[0], ast.In) and any(isinstance(z, ast.Raise) for z in y.body)
+                for m in adders for y in own_walk(m.node))
+    res.inst(lis.fq, "setting an attribute twice on one atom raises", "ok" if okdup else "fail")
+    if not okdup:
+        m = adders[0] if adders else init
+        res.fail(Finding("R-FLOW-PARSE", m.module.rel, m.qualname, "duplicate attribute check", "a repeated attribute silently overrides the earlier one: the result depends on block order", line=m.node.lineno))
+    # ---- graph construction: undirected simple graph, edges from dictionary keys
+    gfm = repo.func("tucan.graph_utils.graph_from_molecule")
+    ctors = [cs for cs in sites(ctx, gfm) if cs.kind == "ext" and cs.target.startswith("networkx.") and cs.target.split(".")[-1] in ("Graph", "DiGraph", "MultiGraph", "MultiDiGraph", "OrderedGraph")]
+    ok = len(ctors) == 1 and ctors[0].target == "networkx.Graph"
+    res.inst(gfm.fq, f"graph container: {[c.target for c in ctors]}", "ok" if ok else "fail")
+    if not ok:
+        n = ctors[0].node if ctors else gfm.node
+        res.fail(Finding("R-FLOW-PARSE", gfm.module.rel, gfm.qualname, norm(n), "molecule graphs are not built as an undirected simple nx.Graph: repeated or reversed tuples would not collapse", line=n.lineno))
+    res.trusted = ["networkx.Graph is an undirected simple graph: add_edges_from collapses duplicates and orientation"]
+    return res
